@@ -96,6 +96,17 @@ def gen_export_import(rng, tier):
                     yield "mpz_export %s 8 %s 0 %x %s" % (hx(order), hx(endian), align, hx(x))
                     cnt, b = export_bytes(order, 8, 1 if endian == 1 else -1, 0, x)
                     yield "mpz_import %s 8 %s 0 %x %s %x" % (hx(order), hx(endian), align, sbytes(b), cnt)
+    # the same fast paths fed a fixed-width field: most significant words zero (one, several, all) — the result must be normalised
+    for total in (2, 4, 9):
+        for zw in range(1, total + 1):
+            for order in (1, -1):
+                for endian in (-1, 0, 1):
+                    for align in (0, 3):
+                        words = [rng.getrandbits(64) | 1 for _ in range(total - zw)] + [0] * zw            # least significant first
+                        seq = words if order == -1 else words[::-1]
+                        be = (endian == 1)
+                        b = b"".join(w.to_bytes(8, "big" if be else "little") for w in seq)
+                        yield "mpz_import %s 8 %s 0 %x %s %x" % (hx(order), hx(endian), align, sbytes(b), total)
 
 def raw_samples(rng, tier):
     xs = [0, 1, -1, 0x7f, 0x80, -0x80, 0xff, 0x100, -0x100, (1 << 56) - 1, 1 << 56, (1 << 63), -(1 << 63), (1 << 64) - 1,
